@@ -326,6 +326,9 @@ func (ex *Exec) evalBuiltin(st *State, call *ast.CallExpr, name string) []Val {
 		ex.mutCount++
 		return []Val{scalar(types.NewPointer(t), ref)}
 	case "delete":
+		if g := ex.globalRoot(call.Args[0]); g != nil {
+			ex.obligNoAssume(st, "global-write", call, "delete from a map reached from package-level variable "+g.Name(), False)
+		}
 		m := ex.eval(st, call.Args[0])
 		k := ex.eval(st, call.Args[1])
 		ex.mutCount++
@@ -336,6 +339,9 @@ func (ex *Exec) evalBuiltin(st *State, call *ast.CallExpr, name string) []Val {
 		st.heapSet(dn, Ite(Eq(m.C[0], IntLit(0)), d, nd))
 		return nil
 	case "copy":
+		if g := ex.globalRoot(call.Args[0]); g != nil {
+			ex.obligNoAssume(st, "global-write", call, "copy into memory reached from package-level variable "+g.Name(), False)
+		}
 		dst := ex.eval(st, call.Args[0])
 		src := ex.eval(st, call.Args[1])
 		dp := sliceParts(dst)
@@ -542,13 +548,14 @@ func (ex *Exec) inline(st *State, call ast.Node, fi *FuncInfo, recv *Val, args [
 			before[h] = st.heapGet(h, srt)
 		}
 		ctrBefore := st.ctr
+		preCall := st.clone()
 		ex.havocFor(st, ms, "deep."+sanitize(fi.Key))
 		var handed []Val
 		if recv != nil {
 			handed = append(handed, *recv)
 		}
 		handed = append(handed, args...)
-		ex.assumeInferredFrames(st, fi, ms, before, ctrBefore, handed)
+		ex.assumeInferredFrames(st, preCall, fi, ms, before, ctrBefore, handed)
 		return ex.havocResults(st, fi.Sig, "deep."+sanitize(fi.Key))
 	}
 	ex.prepareFunc(fi)
@@ -734,7 +741,7 @@ func (ex *Exec) applyContract(st *State, call ast.Node, c *Contract, sig *types.
 				handed = append(handed, *recv)
 			}
 			handed = append(handed, args...)
-			ex.assumeInferredFrames(st, fi, ms, before, ctrBefore, handed)
+			ex.assumeInferredFrames(st, pre, fi, ms, before, ctrBefore, handed)
 		}
 	}
 	// results
@@ -1117,10 +1124,20 @@ func (ex *Exec) callInterface(st *State, call *ast.CallExpr, s *types.Selection,
 		before[h] = st.heapGet(h, srt)
 	}
 	ctrBefore := st.ctr
+	preIf := st.clone()
 	ex.havocFor(st, ms, "if."+sanitize(s.Obj().Name()))
 	// heaps whose pre-existing locations every implementation provably preserves (inferred frames),
 	// possibly except at the objects handed in (receiver, arguments)
 	refs := handedRefs(append([]Val{recv}, args...))
+	for _, fi := range impls {
+		// one level below the concrete receiver (see handedRefsDeep)
+		if fi.Sig.Recv() != nil {
+			if _, isPtr := fi.Sig.Recv().Type().Underlying().(*types.Pointer); isPtr {
+				refs = append(refs, handedRefsDeep(preIf, []Val{scalar(fi.Sig.Recv().Type(), recv.C[1])})...)
+			}
+		}
+	}
+	refs = append(refs, handedRefsDeep(preIf, args)...)
 	for _, h := range ms.heapNames() {
 		kind := frameFull
 		for _, fi := range impls {
